@@ -61,6 +61,18 @@ func ShrinkingMap.Get
   ensures exists ==> value == s.m[key]
   ensures unlocked(s.mutex)
 
+-- GetOrCreate: the stored value if there is one, otherwise the value the factory returns, stored under the key
+func ShrinkingMap.GetOrCreate
+  opt sequential
+  requires s != nil && unlocked(s.mutex) && defaultValueFunc != nil
+  callback defaultValueFunc() (v)
+  modifies map(s.m)
+  ensures created <==> !old(has(s.m, key))
+  ensures has(s.m, key) && s.m[key] == value && s.m == old(s.m)
+  ensures !created ==> value == old(s.m[key])
+  ensures forall k K :: k != key ==> (has(s.m, k) <==> old(has(s.m, k))) && s.m[k] == old(s.m[k])
+  ensures unlocked(s.mutex)
+
 func ShrinkingMap.Has
   opt sequential
   requires s != nil && unlocked(s.mutex)
